@@ -1,7 +1,583 @@
-//! C02 — not built yet.
+//! C02 — parsing never drops, duplicates or reorders tokens.
+//! For every input: lex with the dialect's lexer, parse with `Parser::parse`, take the root
+//! grammar match recorded by the `root_parse` hook, and
+//!  * observe the property directly (leaves of the tree minus inserted metas == lexer tokens:
+//!    ids, raws, positions, order; tree text == token text; file root);
+//!  * monitor `WF` on the recorded `MatchResult` (hypothesis of the Coq theorems);
+//!  * emit the correspondence case `root_parse tokens match == real tree` and
+//!    `append`/`wrap` cases on operand pairs taken from the recorded match.
+use std::collections::HashMap;
+
+use serde_json::{Value, json};
+use sqruff_lib::core::config::FluffConfig;
+use sqruff_lib_core::dialects::syntax::SyntaxKind;
+use sqruff_lib_core::parser::lexer::StringOrTemplate;
+use sqruff_lib_core::parser::match_result::{MatchResult, Matched};
+use sqruff_lib_core::parser::parser::Parser;
+use sqruff_lib_core::parser::segments::base::{ErasedSegment, Tables};
+use sqruff_lib_core::parser::segments::file::verif_hook;
+
 use crate::common::*;
 
-pub fn main(_args: &Args) {
-    eprintln!("c02: not built yet");
-    std::process::exit(2);
+pub fn kind_n(k: SyntaxKind) -> usize {
+    k as usize
+}
+pub fn is_ins_meta_kind(k: SyntaxKind) -> bool {
+    matches!(k, SyntaxKind::Indent | SyntaxKind::Dedent | SyntaxKind::Implicit)
+}
+
+// ---------------------------------------------------------------- Gallina printers
+pub fn g_tok(t: &ErasedSegment) -> String {
+    format!("(mkTok {} {} {})", t.id(), kind_n(t.get_type()), g_bool(t.is_code()))
+}
+pub fn g_mr(m: &MatchResult) -> String {
+    let matched = match &m.matched {
+        None => "None".to_string(),
+        Some(Matched::SyntaxKind(k)) => format!("(Some (MKind {}))", kind_n(*k)),
+        Some(Matched::Newtype(k)) => format!("(Some (MNewtype {}))", kind_n(*k)),
+    };
+    format!(
+        "(MR {} {} {} {} {})",
+        m.span.start,
+        m.span.end,
+        matched,
+        g_list(m.insert_segments.iter().map(|(p, k)| format!("({},{})", p, kind_n(*k)))),
+        g_list(m.child_matches.iter().map(g_mr))
+    )
+}
+pub fn g_tree(t: &ErasedSegment, tok_ids: &std::collections::HashSet<u32>) -> String {
+    if t.segments().is_empty() {
+        if tok_ids.contains(&t.id()) {
+            format!("(Tok {} {})", t.id(), kind_n(t.get_type()))
+        } else {
+            format!("(Meta {} 0)", kind_n(t.get_type()))
+        }
+    } else {
+        format!("(Node {} {})", kind_n(t.get_type()), g_list(t.segments().iter().map(|c| g_tree(c, tok_ids))))
+    }
+}
+
+// ---------------------------------------------------------------- WF monitor (mirror of Apply.Model.wf)
+pub fn has_match(m: &MatchResult) -> bool {
+    m.span.start != m.span.end || !m.insert_segments.is_empty()
+}
+fn wf_node(n: u32, m: &MatchResult) -> Result<(), String> {
+    let (s, e) = (m.span.start, m.span.end);
+    let sp: Vec<(u32, u32)> = m.child_matches.iter().map(|c| (c.span.start, c.span.end)).collect();
+    let ins = &m.insert_segments;
+    if !(s <= e && e <= n) {
+        return Err(format!("span {s}..{e} not within 0..{n}"));
+    }
+    for c in &sp {
+        if !(s <= c.0 && c.0 <= c.1 && c.1 <= e) {
+            return Err(format!("child {}..{} not nested in {s}..{e}", c.0, c.1));
+        }
+    }
+    for c in &sp {
+        for d in &sp {
+            if c.0 < d.0 && !(c.1 <= d.0) {
+                return Err(format!("children {}..{} and {}..{} overlap", c.0, c.1, d.0, d.1));
+            }
+        }
+        for q in ins {
+            if c.0 < q.0 && !(c.1 <= q.0) {
+                return Err(format!("insert at {} inside child {}..{}", q.0, c.0, c.1));
+            }
+        }
+    }
+    for (i, c) in sp.iter().enumerate() {
+        for d in &sp[i + 1..] {
+            if c.0 == d.0 && c.1 != c.0 {
+                return Err(format!("children {}..{} and {}..{} start together", c.0, c.1, d.0, d.1));
+            }
+        }
+    }
+    for q in ins {
+        if !(s <= q.0 && q.0 <= e) {
+            return Err(format!("insert at {} outside {s}..{e}", q.0));
+        }
+    }
+    if !(ins.is_empty() || n > 0) {
+        return Err("insert over an empty token array".into());
+    }
+    match &m.matched {
+        None => {}
+        Some(Matched::SyntaxKind(k)) => {
+            if !(s != e || !ins.is_empty()) {
+                return Err(format!("empty node match of kind {:?} at {s}", k));
+            }
+        }
+        Some(Matched::Newtype(k)) => {
+            if !(e == s + 1 && ins.is_empty() && sp.is_empty()) {
+                return Err(format!("Newtype {:?} over {s}..{e} with {} inserts, {} children", k, ins.len(), sp.len()));
+            }
+        }
+    }
+    Ok(())
+}
+pub fn wf(n: u32, m: &MatchResult) -> Result<(), String> {
+    for c in &m.child_matches {
+        wf(n, c)?;
+    }
+    wf_node(n, m)
+}
+pub fn start_end_idx(tokens: &[ErasedSegment]) -> (u32, u32) {
+    let si = tokens.iter().position(|s| s.is_code()).unwrap_or(0) as u32;
+    let ei = tokens.iter().rposition(|s| s.is_code()).map_or(si, |i| i as u32 + 1);
+    (si, ei)
+}
+pub fn wf_root(tokens: &[ErasedSegment], m: &MatchResult) -> Result<(), String> {
+    wf(tokens.len() as u32, m)?;
+    let (si, ei) = start_end_idx(tokens);
+    if m.span.start != si {
+        return Err(format!("root match starts at {} not at start_idx {}", m.span.start, si));
+    }
+    if m.span.end > ei {
+        return Err(format!("root match ends at {} after end_idx {}", m.span.end, ei));
+    }
+    Ok(())
+}
+/// children in list order are sorted and disjoint (stronger than WF; measured only)
+fn sorted_children(m: &MatchResult) -> bool {
+    m.child_matches.windows(2).all(|w| w[0].span.end <= w[1].span.start) && m.child_matches.iter().all(sorted_children)
+}
+fn mr_size(m: &MatchResult) -> usize {
+    1 + m.child_matches.iter().map(mr_size).sum::<usize>()
+}
+
+// ---------------------------------------------------------------- inputs
+pub struct Item {
+    pub cls: &'static str,
+    pub dialect: String,
+    pub sql: String,
+}
+
+pub struct Ctx {
+    cfgs: HashMap<String, FluffConfig>,
+}
+impl Ctx {
+    pub fn new() -> Ctx {
+        Ctx { cfgs: HashMap::new() }
+    }
+    pub fn cfg(&mut self, dialect: &str) -> &FluffConfig {
+        self.cfgs
+            .entry(dialect.to_string())
+            .or_insert_with(|| FluffConfig::from_source(&format!("[sqruff]\ndialect = {}\n", dialect), None))
+    }
+}
+
+pub fn lex(cfg: &FluffConfig, tables: &Tables, sql: &str) -> Result<(Vec<ErasedSegment>, usize), String> {
+    catch(|| cfg.get_dialect().lexer().lex(tables, StringOrTemplate::String(sql)))
+        .and_then(|r| r.map_err(|e| format!("{:?}", e)))
+        .map(|(t, errs)| (t, errs.len()))
+}
+
+const KEYWORDS: &[&str] = &["SELECT", "FROM", "WHERE", ")", "(", ",", ";", "JOIN", "AS", "1", "'x'", "foo", "CASE", "END", "BY", "--c\n", "/*c*/"];
+
+/// Token-level corruptions of `sql` (token boundaries from the real lexer).
+fn mutate(rng: &mut Rng, raws: &[String]) -> String {
+    let mut v: Vec<String> = raws.to_vec();
+    let code: Vec<usize> = (0..v.len()).filter(|&i| !v[i].trim().is_empty()).collect();
+    if code.is_empty() {
+        return v.concat();
+    }
+    let nops = rng.range(1, 3);
+    for _ in 0..nops {
+        if v.is_empty() {
+            break;
+        }
+        let code: Vec<usize> = (0..v.len()).filter(|&i| !v[i].trim().is_empty()).collect();
+        if code.is_empty() {
+            break;
+        }
+        let i = code[rng.below(code.len())];
+        match rng.below(6) {
+            0 => {
+                v.remove(i);
+            }
+            1 => {
+                let x = v[i].clone();
+                v.insert(i, " ".into());
+                v.insert(i, x);
+            }
+            2 => {
+                let j = code[rng.below(code.len())];
+                v.swap(i, j);
+            }
+            3 => {
+                let kw = KEYWORDS[rng.below(KEYWORDS.len())];
+                v.insert(i, " ".into());
+                v.insert(i, kw.to_string());
+            }
+            4 => {
+                v.truncate(i);
+            }
+            _ => {
+                let j = code[rng.below(code.len())];
+                let (a, b) = (i.min(j), i.max(j));
+                v.drain(a..b);
+            }
+        }
+    }
+    v.concat()
+}
+
+const JUNK: &[&str] = &[
+    "",
+    " ",
+    "\n",
+    "\n\n  \n",
+    "-- only a comment",
+    "-- only a comment\n",
+    "/* c */",
+    "  /* c */  \n-- x\n",
+    ";",
+    ";;",
+    " ; ",
+    ")",
+    "(",
+    "((",
+    "))",
+    "()",
+    "SELECT",
+    "SELECT ",
+    " SELECT 1",
+    "\nSELECT 1\n",
+    "SELECT 1;",
+    "SELECT 1 ;  ",
+    "SELECT 1; -- c",
+    "SELECT 1;; SELECT 2",
+    "SELECT 1 SELECT 2",
+    "SELECT (1",
+    "SELECT 1)",
+    "SELECT 1) FROM t",
+    "SELECT a FROM (SELECT b FROM",
+    "SELECT a,, b FROM t",
+    "SELECT FROM WHERE",
+    "FROM t SELECT a",
+    "foo bar baz",
+    "1 2 3",
+    "SELECT a FROM t WHERE",
+    "SELECT a FROM t WHERE ;",
+    "SELECT a FROM t ORDER",
+    "SELECT CASE WHEN a THEN b",
+    "SELECT a FROM t; garbage here; SELECT 2",
+    "garbage; SELECT 1",
+    "SELECT 'unterminated",
+    "SELECT \"unterminated",
+    "SELECT /* unterminated",
+    "SELECT a\r\nFROM t\r\n",
+    "SELECT\ta\tFROM\tt",
+    "SELECT 'multi\nline' FROM t",
+    "SELECT 'é', \"ü\" FROM t -- ñ",
+    "CREATE TABLE t (a int",
+    "CREATE TABLE t (a int))",
+    "INSERT INTO t VALUES (1, 2",
+    "WITH a AS (SELECT 1) ",
+    "WITH a AS (SELECT 1) SELECT",
+    "SELECT a FROM t JOIN",
+    "SELECT [a] FROM t",
+    "SELECT {a} FROM t",
+    "SELECT a FROM t LIMIT",
+    "BEGIN; SELECT 1; END",
+];
+
+fn deep_brackets(n: usize) -> String {
+    format!("SELECT {}1{} FROM t", "(".repeat(n), ")".repeat(n))
+}
+
+// ---------------------------------------------------------------- one input
+fn short_hash(s: &str) -> String {
+    // FNV-1a, enough for a key
+    let mut h: u64 = 0xcbf29ce484222325;
+    for b in s.as_bytes() {
+        h ^= *b as u64;
+        h = h.wrapping_mul(0x100000001b3);
+    }
+    format!("{:012x}", h & 0xffff_ffff_ffff)
+}
+
+fn args_ops_all() -> bool {
+    std::env::var("SQV_C02_ALL_OPS").is_ok()
+}
+
+fn collect_ops(m: &MatchResult, out: &mut Vec<(MatchResult, MatchResult)>, limit: usize) {
+    for w in m.child_matches.windows(2) {
+        if out.len() >= limit {
+            return;
+        }
+        out.push((w[0].clone(), w[1].clone()));
+    }
+    for c in &m.child_matches {
+        if out.len() >= limit {
+            return;
+        }
+        collect_ops(c, out, limit);
+    }
+}
+
+pub struct Parsed {
+    pub tokens: Vec<ErasedSegment>,
+    pub lex_errors: usize,
+    pub root: Option<verif_hook::RootMatch>,
+    /// Ok(Some(tree)) | Ok(None) (parse error) | Err(panic message)
+    pub result: Result<Option<ErasedSegment>, String>,
+}
+
+pub fn lex_and_parse(cfg: &FluffConfig, tables: &Tables, sql: &str) -> Result<Parsed, String> {
+    let (tokens, lex_errors) = lex(cfg, tables, sql)?;
+    let parser: Parser = cfg.into();
+    let _ = verif_hook::take();
+    let result = catch(|| parser.parse(tables, &tokens, None)).map(|r| match r {
+        Ok(t) => t,
+        Err(_) => None,
+    });
+    let root = verif_hook::take();
+    Ok(Parsed { tokens, lex_errors, root, result })
+}
+
+fn run_one(cx: &mut Ctx, it: &Item, out: &mut Buf) {
+    let input = json!({"dialect": it.dialect, "sql": it.sql});
+    let cfg = cx.cfg(&it.dialect);
+    let tables = Tables::default();
+    out.count("inputs", 1);
+    let p = match lex_and_parse(cfg, &tables, &it.sql) {
+        Ok(p) => p,
+        Err(msg) => {
+            // the lexer itself failed: outside C02 (C01/C03), counted
+            out.count("lexer_failed", 1);
+            let _ = msg;
+            return;
+        }
+    };
+    if p.lex_errors > 0 {
+        out.count("inputs_with_lex_errors", 1);
+    }
+    let tokens = &p.tokens;
+    if tokens.is_empty() {
+        out.count("no_tokens", 1);
+        return;
+    }
+    let tok_ids: std::collections::HashSet<u32> = tokens.iter().map(|t| t.id()).collect();
+    out.hyp("token_ids_distinct", "blocking", tok_ids.len() == tokens.len(), json!({"input": input}));
+    out.hyp(
+        "tokens_are_leaves_without_inserted_meta_kinds",
+        "blocking",
+        tokens.iter().all(|t| t.segments().is_empty() && !is_ins_meta_kind(t.get_type())),
+        json!({"input": input}),
+    );
+    let key_base = format!("{}:{}", it.dialect, short_hash(&it.sql));
+
+    // ---- direct observation of the property
+    let (cls_res, exp_g): (&str, String) = match &p.result {
+        Err(msg) => {
+            out.count("parse_panics", 1);
+            // a reference to a keyword the dialect does not define panics in `Dialect::ref` (the C14 defect):
+            // keyed by (dialect, keyword); any other panic is keyed by the input
+            let key = match msg.strip_prefix("Grammar refers to the '").and_then(|r| r.split_once("' keyword which was not found")) {
+                Some((kw, _)) => format!("c02-dangling-keyword:{}:{}", it.dialect, kw),
+                None => format!("c02-panic:{}", key_base),
+            };
+            out.direct(it.cls, false, &key, &format!("Parser::parse panicked (neither a tree nor a parse error): {}", trunc(msg, 300)), input.clone());
+            ("panic", "None".to_string())
+        }
+        Ok(None) => {
+            out.count("parse_errors", 1);
+            out.direct(it.cls, true, "", "", Value::Null);
+            ("parse-error", "(Some PErr)".to_string())
+        }
+        Ok(Some(tree)) => {
+            let leaves: Vec<ErasedSegment> = tree.get_raw_segments();
+            let kept: Vec<&ErasedSegment> = leaves.iter().filter(|l| !(is_ins_meta_kind(l.get_type()) && !tok_ids.contains(&l.id()))).collect();
+            let mut why = String::new();
+            if tree.get_type() != SyntaxKind::File {
+                why = format!("root is {:?}, not a file", tree.get_type());
+            } else if kept.len() != tokens.len() {
+                why = format!("{} non-meta leaves for {} tokens", kept.len(), tokens.len());
+            } else {
+                for (i, (l, t)) in kept.iter().zip(tokens.iter()).enumerate() {
+                    let (lp, tp) = (l.get_position_marker(), t.get_position_marker());
+                    let pos_same = match (lp, tp) {
+                        (Some(a), Some(b)) => a.source_slice == b.source_slice && a.templated_slice == b.templated_slice && a.working_loc() == b.working_loc(),
+                        _ => false,
+                    };
+                    if l.id() != t.id() || l.raw() != t.raw() || !pos_same {
+                        why = format!("leaf {} is id {} {:?}, token is id {} {:?} (positions equal: {})", i, l.id(), l.raw(), t.id(), t.raw(), pos_same);
+                        break;
+                    }
+                }
+            }
+            if why.is_empty() {
+                let text: String = tokens.iter().map(|t| t.raw().as_str()).collect();
+                if tree.raw().as_str() != text {
+                    why = "tree text differs from the token text".into();
+                } else if p.lex_errors == 0 && text != it.sql {
+                    // lexer lossless-ness is C01; only counted here
+                    out.count("token_text_differs_from_input_without_lex_error", 1);
+                }
+            }
+            let has_unparsable = tree.recursive_crawl_all(false).iter().any(|s| s.get_type() == SyntaxKind::Unparsable);
+            if has_unparsable {
+                out.count("trees_with_unparsable", 1);
+            }
+            out.direct(it.cls, why.is_empty(), &format!("c02-leaves:{}", key_base), &why, input.clone());
+            (if has_unparsable { "tree-unparsable" } else { "tree-clean" }, format!("(Some (POk {}))", g_tree(tree, &tok_ids)))
+        }
+    };
+    out.count(&format!("result_{}", cls_res), 1);
+
+    // ---- WF monitor and correspondence case
+    let (si, ei) = start_end_idx(tokens);
+    let (gm_g, wf_ok, root_mr) = match &p.root {
+        Some(r) => {
+            if r.start_idx != si || r.end_idx != ei {
+                out.hyp("root_span_is_first_to_last_code_token", "blocking", false, json!({"input": input, "recorded": [r.start_idx, r.end_idx], "expected": [si, ei]}));
+            } else {
+                out.hyp("root_span_is_first_to_last_code_token", "blocking", true, Value::Null);
+            }
+            let w = wf_root(tokens, &r.match_result);
+            out.hyp("H_WF_root_match", "blocking", w.is_ok(), json!({"input": input, "why": w.clone().err()}));
+            out.count("match_nodes", mr_size(&r.match_result));
+            if !sorted_children(&r.match_result) {
+                out.count("matches_with_unsorted_children", 1);
+            }
+            if r.match_result.span.end < ei && has_match(&r.match_result) {
+                out.count("matches_with_unmatched_tail", 1);
+            }
+            if !has_match(&r.match_result) {
+                out.count("matches_empty", 1);
+            }
+            (format!("(GOk {})", g_mr(&r.match_result)), w.is_ok(), Some(&r.match_result))
+        }
+        None => {
+            // no grammar call (no code token) or the grammar returned Err / panicked
+            if si != ei {
+                out.count("grammar_err_or_panic", 1);
+            } else {
+                out.count("no_code_tokens", 1);
+            }
+            ("GErr".to_string(), true, None)
+        }
+    };
+    // a panic inside the grammar (before root_parse's apply) is not in the model's domain
+    let grammar_panicked = p.result.is_err() && p.root.is_none() && si != ei;
+    let limit = 260;
+    if tokens.len() <= limit && !grammar_panicked {
+        let args = g_tuple(&[g_list(tokens.iter().map(g_tok)), gm_g]);
+        let exp = g_tuple(&[g_bool(wf_ok), exp_g]);
+        let nontrivial = root_mr.map(|m| mr_size(m) >= 3).unwrap_or(false);
+        let sample = json!({"input": input, "tokens": tokens.len(), "result": cls_res});
+        out.case("root", it.cls, nontrivial, args, exp, sample);
+    } else {
+        out.count("root_cases_skipped_too_large_or_grammar_panic", 1);
+    }
+
+    // ---- append / wrap on operand pairs taken from the recorded match
+    let do_ops = args_ops_all() || short_hash(&it.sql).as_bytes()[11] % 4 == 0;
+    if let (Some(m), true) = (root_mr, do_ops) {
+        let mut ops = vec![];
+        collect_ops(m, &mut ops, 3);
+        let n = tokens.len() as u32;
+        for (k, (a, b)) in ops.iter().enumerate() {
+            if mr_size(a) + mr_size(b) > 60 {
+                continue;
+            }
+            let r = catch(|| a.clone().verif_append(b));
+            if let Ok(r) = r {
+                let pre = wf(n, a).is_ok() && wf(n, b).is_ok() && a.span.end <= b.span.start;
+                if pre {
+                    out.hyp("append_preserves_WF_on_real_operands", "blocking", wf(n, &r).is_ok(), json!({"input": input, "a": g_mr(a), "b": g_mr(b)}));
+                }
+                out.case("append", it.cls, has_match(a) && has_match(b), g_tuple(&[g_mr(a), g_mr(b)]), g_mr(&r), json!({"input": input, "op": "append", "pair": k}));
+            }
+            if k == 0 {
+                let e = MatchResult::empty_at(a.span.end);
+                if let Ok(r) = catch(|| a.clone().verif_append(&e)) {
+                    out.case("append", it.cls, false, g_tuple(&[g_mr(a), g_mr(&e)]), g_mr(&r), json!({"input": input, "op": "append-empty", "pair": k}));
+                }
+                if let Ok(r) = catch(|| e.clone().verif_append(b)) {
+                    out.case("append", it.cls, false, g_tuple(&[g_mr(&e), g_mr(b)]), g_mr(&r), json!({"input": input, "op": "empty-append", "pair": k}));
+                }
+            }
+            let kind = SyntaxKind::Expression;
+            if let Ok(r) = catch(|| a.clone().verif_wrap(Matched::SyntaxKind(kind))) {
+                if wf(n, a).is_ok() {
+                    out.hyp("wrap_preserves_WF_on_real_operands", "blocking", wf(n, &r).is_ok(), json!({"input": input, "a": g_mr(a)}));
+                }
+                out.case("wrap", it.cls, has_match(a), g_tuple(&[g_mr(a), g_n(kind_n(kind))]), g_mr(&r), json!({"input": input, "op": "wrap", "pair": k}));
+            }
+        }
+    }
+}
+
+pub fn corpus_items(rng: &mut Rng, thorough: bool, n_cross: usize, n_mut: usize) -> Vec<Item> {
+    let mut items: Vec<Item> = vec![];
+    let files = corpus();
+    // regression / junk stream first
+    for d in DIALECTS {
+        for j in JUNK {
+            if d == "ansi" || thorough || rng.chance(1, 6) {
+                items.push(Item { cls: "junk", dialect: d.to_string(), sql: j.to_string() });
+            }
+        }
+    }
+    for n in [1usize, 8, 64] {
+        items.push(Item { cls: "junk", dialect: "ansi".into(), sql: deep_brackets(n) });
+    }
+    for f in &files {
+        items.push(Item { cls: "corpus", dialect: f.dialect.clone(), sql: f.text.clone() });
+    }
+    for (i, (_, s)) in rule_snippets().into_iter().enumerate() {
+        if thorough || i % 3 == 0 {
+            items.push(Item { cls: "rule-snippet", dialect: "ansi".into(), sql: s });
+        }
+    }
+    if thorough {
+        for f in &files {
+            for d in DIALECTS {
+                if d != f.dialect {
+                    items.push(Item { cls: "cross-dialect", dialect: d.to_string(), sql: f.text.clone() });
+                }
+            }
+        }
+    } else {
+        for _ in 0..n_cross {
+            let f = &files[rng.below(files.len())];
+            let d = DIALECTS[rng.below(DIALECTS.len())];
+            if d != f.dialect {
+                items.push(Item { cls: "cross-dialect", dialect: d.to_string(), sql: f.text.clone() });
+            }
+        }
+    }
+    // token corruptions
+    let mut cx = Ctx::new();
+    let small: Vec<&CorpusFile> = files.iter().filter(|f| f.text.len() <= 1500).collect();
+    for _ in 0..n_mut {
+        let f = small[rng.below(small.len())];
+        let dialect = if rng.chance(1, 5) { DIALECTS[rng.below(DIALECTS.len())].to_string() } else { f.dialect.clone() };
+        let tables = Tables::default();
+        let raws: Vec<String> = match lex(cx.cfg(&dialect), &tables, &f.text) {
+            Ok((t, _)) => t.iter().map(|t| t.raw().to_string()).collect(),
+            Err(_) => continue,
+        };
+        items.push(Item { cls: "token-corruption", dialect, sql: mutate(rng, &raws) });
+    }
+    items
+}
+
+pub fn main(args: &Args) {
+    silence_panics();
+    let mut out = Out::new(&args.out);
+    let mut rng = Rng::new(args.seed);
+    let items: Vec<Item> = if let Some(path) = args.flag("--replay-input") {
+        let v: Value = serde_json::from_str(&std::fs::read_to_string(path).unwrap()).unwrap();
+        let v = if v.get("input").is_some() { v["input"].clone() } else { v };
+        vec![Item { cls: "replay", dialect: v["dialect"].as_str().unwrap_or("ansi").to_string(), sql: v["sql"].as_str().unwrap_or("").to_string() }]
+    } else if args.thorough() {
+        corpus_items(&mut rng, true, 0, 30000)
+    } else {
+        corpus_items(&mut rng, false, 400, 900)
+    };
+    par_run(&mut out, &items, Ctx::new, run_one);
+    out.finish();
 }
